@@ -559,6 +559,14 @@ def layer_search(job):
     rec = {"op": "layer", "n": n, "P": [c % impl.W2 for c in P], "g": g, "res": "none", "blocks": [], "offdiag": 0, "gates": [], "circ": 0, "exc": "", "witness": witness, "dtype": dt}
     graph = lib.graph.Graph.decompress(n, g)
     Rb, Sb = R.copy(), S.copy()
+    # shape probes: the same numbers regrouped to another qubit number (and the same graph id on that many vertices) are asked first, in the same process;
+    # the answer to the real question must not depend on it
+    for n2 in range(2, 7):
+        if n2 != n and (n * m) % n2 == 0 and g < (1 << (n2 * (n2 - 1) // 2)):
+            try:
+                fl.find_local_clifford_layer(R.reshape(n2, (n * m) // n2).copy(), S.reshape(n2, (n * m) // n2).copy(), lib.graph.Graph.decompress(n2, g))
+            except Exception:
+                pass
     try:
         A = fl.find_local_clifford_layer(R, S, graph)
     except Exception as e:
@@ -668,11 +676,23 @@ def _tomo_build(job, k):
     elif lst is not None and form == "edited":
         arg = np.array(lst)
     st = None
+    if form == "tuple":
+        prep.metadata = {"experiment": "hv", "tags": [1, 2]}       # the caller's own metadata on its preparation circuit
     if job["kind"] == "full":
         circs = lib.tomography.full_state_tomography_circuits(prep, conn, arg)
     else:
         st = stab_from_codes(job["m"], job["meas"], "matrices")
         circs = [lib.tomography.stabilizer_measurement_circuit(prep, st, conn, arg)]
+    if form == "tuple":
+        # the same preparation circuit object is used for a further request (another stabilizer: the computational basis; the tomography family once
+        # more) BEFORE the first circuits are evaluated; the first circuits must not notice
+        try:
+            m = job["m"]
+            lib.tomography.stabilizer_measurement_circuit(prep, stab_from_codes(m, [impl.W << q for q in range(m)], "matrices"), conn, arg)
+            if job["kind"] == "full":
+                lib.tomography.full_state_tomography_circuits(prep, conn, arg)
+        except Exception:
+            pass
     if form == "edited":
         # the call is over; the caller goes on using ITS objects: the qubit array is reversed in place, the stabilizer's arrays are overwritten, the
         # preparation circuit gets more gates.  The delivered circuits (and everything the fitters read later) must not depend on that.
@@ -861,19 +881,25 @@ def config_gate(job):
     from qiskit import QuantumCircuit
     entry, n, name = job[0], job[1], job[2]
     lib = L()
-    rec = {"op": "config", "entry": entry, "n": n, "name": name if name is not None else "<None>", "outcome": "raise", "exc": ""}
+    rec = {"op": "config", "entry": entry, "n": n, "name": name if name is not None else "<None>", "outcome": "raise", "exc": "", "state": job[3] if len(job) > 3 else "zero"}
     if len(job) > 3 and job[3] == "npint":
         import numpy as np
         n = np.int64(n)          # a qubit count that arrives as a numpy integer must be treated like the int it equals
     try:
         St = lib.stabilizer.Stabilizer
         zs = ["I" * q + "Z" + "I" * (n - q - 1) for q in range(n)]
+        empty = QuantumCircuit(n)
+        if len(job) > 3 and job[3] == "ghz" and n >= 2:      # an entangled state instead of the computational basis state
+            zs = ["X" * n] + ["I" * q + "ZZ" + "I" * (n - q - 2) for q in range(n - 1)]
+            empty.h(0)
+            for q in range(n - 1):
+                empty.cx(q, q + 1)
         if entry == "get_preparation_circuit":
             lib.stabilizer_circuits.get_preparation_circuit(St(zs), name)
         elif entry == "get_readout_circuit":
             lib.stabilizer_circuits.get_readout_circuit(St(zs), name)
         elif entry == "compress_preparation_circuit":
-            lib.stabilizer_circuits.compress_preparation_circuit(QuantumCircuit(n), name)
+            lib.stabilizer_circuits.compress_preparation_circuit(empty, name)
         elif entry == "get_mub_circuits":
             lib.mub_circuits.get_mub_circuits(n, name)
         elif entry == "get_mubs":
@@ -881,9 +907,9 @@ def config_gate(job):
         elif entry == "get_mub_info":
             lib.mub_circuits.get_mub_info(n, name)
         elif entry == "full_state_tomography_circuits":
-            lib.tomography.full_state_tomography_circuits(QuantumCircuit(n), name)
+            lib.tomography.full_state_tomography_circuits(empty, name)
         elif entry == "stabilizer_measurement_circuit":
-            lib.tomography.stabilizer_measurement_circuit(QuantumCircuit(n), St(zs), name)
+            lib.tomography.stabilizer_measurement_circuit(empty, St(zs), name)
         elif entry == "full_state_tomography_circuits[subset]":
             lib.tomography.full_state_tomography_circuits(QuantumCircuit(n + 2), name, list(range(n + 1, 1, -1)))
         elif entry == "stabilizer_measurement_circuit[subset]":
@@ -1021,6 +1047,37 @@ def synth(job):
     except Exception as e:
         rec["exc"] = exc_name(e)
     return rec
+
+
+def method_order(job):
+    """job = (n, codes).  What an object answers must not depend on which of its other (read-only) methods were called before: the class object of a
+    stabilizer asked for its graph and grouping directly, and after id() / str() / ==; the Stabilizer object asked for its group expansion directly, and
+    after to_list() / validate() / is_qubit_entangled().  -> both projections; the check compares them."""
+    n, codes = job
+    lib = L()
+    out = {"n": n, "codes": list(codes), "exc": ""}
+    try:
+        a = lib.lc_classes.determine_lc_class(stab_from_codes(n, codes, "matrices"))
+        out["graph_fresh"] = impl.graph_rows(a.get_graph())
+        out["data_fresh"] = _blocks(a.data)
+        b = lib.lc_classes.determine_lc_class(stab_from_codes(n, codes, "matrices"))
+        out["id"] = int(b.id())
+        str(b)
+        b == b
+        out["graph_after"] = impl.graph_rows(b.get_graph())
+        out["data_after"] = _blocks(b.data)
+        out["id_after"] = int(b.id())
+        s1 = stab_from_codes(n, codes, "matrices")
+        X, Z = s1.expand()
+        out["exp_fresh"] = [_mat(X), _mat(Z)]
+        s2 = stab_from_codes(n, codes, "matrices")
+        s2.to_list(); s2.validate(); [s2.is_qubit_entangled(q) for q in range(n)]; s2.to_list(qiskit_convention=True)
+        X, Z = s2.expand()
+        out["exp_after"] = [_mat(X), _mat(Z)]
+        out["tab_after"] = paulis = impl.paulis_of(s2)
+    except Exception as e:
+        out["exc"] = exc_name(e) + ": " + str(e)[:100]
+    return out
 
 
 def synth_flags(job):
